@@ -611,6 +611,10 @@ func c04R5(p *engine.Prog, r *engine.Report, sm *stateModel) {
 	totalCostNoBypassRule(p, r, "C04-R2")
 	importRules(p, r, "C15", map[string]string{"C15-R6": "C04-R8"})
 	gasLimitFeeRateRule(p, r, "C04-R8")
+	chargedCostRule(p, r, "C04-R2")
+	// ---------------- R9: stake parts stay nested
+	stakePartsRule(p, r, "C04-R9")
+	r.Floor("C04-R9", 3, "invitee reward (locked, replenished) + ReplenishStakeTx")
 	// ---------------- R7: buffered balances are read through the buffer
 	c04R7(p, r)
 }
